@@ -178,6 +178,6 @@ def main(tier):
         assumptions=[
             "integer parameters are arbitrary integers satisfying the field constraints declared on the real classes (read at run time)",
             "pydantic-core enforces the declared field constraints (boundary behaviour is the subject of C18)",
-            "shape bound: one task under test, alone and next to one element of every other kind; larger mixes are covered by monotonicity of conjunction (DESIGN 3.2)",
+            "shape bound: one task under test, alone and next to one element of every other kind (also when the task is only named by operands of connectives); larger mixes are covered by monotonicity of conjunction (DESIGN 3.2), itself checked class by class: the base rules of five concrete tasks next to each of the 35 constraint classes in 2 (thorough 4) roles",
             "z3 4.12.6 decides the QF_LIA queries; solver configuration only selects the z3 engine (C15)",
         ])
